@@ -31,6 +31,7 @@ fn main() {
         .unwrap_or(1);
     let mut replay: Option<PathBuf> = None;
     let mut fuzz_only: Option<u64> = None;
+    let mut ship_child = false;
     let mut i = 1;
     while i < args.len() {
         match args[i].as_str() {
@@ -52,6 +53,7 @@ fn main() {
                 i += 1;
                 fuzz_only = Some(args.get(i).and_then(|s| s.parse().ok()).unwrap_or_else(|| usage()));
             }
+            "--ship-child" => ship_child = true,
             "--replay" => {
                 i += 1;
                 replay = Some(PathBuf::from(args.get(i).cloned().unwrap_or_else(|| usage())));
@@ -64,6 +66,11 @@ fn main() {
         eprintln!("unknown property {prop}");
         std::process::exit(2);
     };
+    if ship_child {
+        // C20's second build profile (no overflow checks, no debug assertions); result goes to the parent on stdout
+        let ctx = CheckCtx::new(&prop, tier, seed, true);
+        std::process::exit(vh::props::c20::ship_child(&ctx));
+    }
     if let Some(path) = replay {
         let ctx = CheckCtx::new(&prop, tier, seed, true);
         vh::driver::CONFIRMING.store(true, std::sync::atomic::Ordering::Relaxed);
